@@ -36,7 +36,8 @@ def bodies(t, rng, quick):
     elif t == 16:
         out += [('issuer', bytes(range(8)))]
     elif t in (33, 35):
-        out += [('fpr', b'\x04' + bytes(range(20)))]
+        # version 4 (20 octets), version 5 / 6 (32 octets), a version of another length (16 octets of a version 3 MD5 fingerprint)
+        out += [('fpr', b'\x04' + bytes(range(20))), ('fpr-v5', b'\x05' + bytes(range(32))), ('fpr-v6', b'\x06' + bytes(range(32))), ('fpr-v3', b'\x03' + bytes(range(16)))]
     elif t in TEXT:
         texts = [b'', b'plain ascii', 'ünï©ode ✓'.encode('utf-8'), b'\xff\xfe latin?\xe9', b'a' * 300]
         if t == 6:
